@@ -617,6 +617,21 @@ func sameSignature(a, b string, keepOptional bool) bool {
 			s = strings.NewReplacer("{", "", "}", "", "|", "").Replace(s)
 		}
 		s = strings.ReplaceAll(s, "[]", "<elem>") // "[]" inside a carried name is not loop structure
+		// a blank inside a carried name ("len x", "const Version") does not separate items
+		var sb strings.Builder
+		depth := 0
+		for _, ch := range s {
+			switch {
+			case ch == '(':
+				depth++
+			case ch == ')' && depth > 0:
+				depth--
+			case ch == ' ' && depth > 0:
+				ch = '_'
+			}
+			sb.WriteRune(ch)
+		}
+		s = sb.String()
 		s = strings.NewReplacer("[", " [ ", "]", " ] ").Replace(s)
 		return strings.Fields(s)
 	}
@@ -637,6 +652,16 @@ func sameSignature(a, b string, keepOptional bool) bool {
 			return false
 		}
 		if ca != "" && cb != "" && ca != cb {
+			// "len" of something unnamed on one side, "len x" on the other: the same kind of quantity
+			if (ca == "len" && strings.HasPrefix(cb, "len_")) || (cb == "len" && strings.HasPrefix(ca, "len_")) {
+				continue
+			}
+			// a carried field is identified by its name; the struct that holds it may change
+			// (c.offsets -> c.progress.offsets)
+			last := func(s string) string { return s[strings.LastIndex(s, ".")+1:] }
+			if strings.Contains(ca, ".") && strings.Contains(cb, ".") && last(ca) == last(cb) && strings.HasPrefix(ca, "len_") == strings.HasPrefix(cb, "len_") {
+				continue
+			}
 			return false
 		}
 	}
@@ -1068,6 +1093,16 @@ func (c *Ctx) footerOffsets(r *Report) {
 	var reads []footerRead
 	var problems []string
 	c.scanFooterReads(fn, map[*ssa.Parameter]offVal{}, 0, &reads, &problems)
+	if len(problems) > 0 && len(reads) == 0 {
+		// not offsets computed from data.Len(): maybe a cursor that walks backwards from it
+		if how, bad := c.cursorFooterProof(fn); how != "" {
+			r.ok(key, "parseFooter", c.pos(fn.Pos()), how)
+			return
+		} else if bad != "" {
+			r.bad(key, "parseFooter", c.pos(fn.Pos()), bad)
+			return
+		}
+	}
 	if len(problems) > 0 {
 		r.bad(key, "parseFooter", c.pos(fn.Pos()), problems[0])
 		return
@@ -1274,4 +1309,219 @@ func (c *Ctx) destWidth(dst ssa.Value, at *ssa.BasicBlock) int64 {
 		}
 	}
 	return total
+}
+
+// cursorFooterProof: the footer is read through a cursor object whose position
+// starts at data.Len() and whose one reading method first steps back by the
+// width it is given and then reads exactly [pos, pos+width): successive reads
+// are adjacent by construction.  What remains to be shown: nothing else moves
+// the position, every width handed to the method is the width of the decode
+// applied to the bytes it returns, and the decodes add up to footerLen (taken
+// from the reader's wire signature, in which loops over tables are unrolled).
+func (c *Ctx) cursorFooterProof(parse *ssa.Function) (how, bad string) {
+	// the reading method: the one function (reachable from parse) that calls Data.Read
+	var rd *ssa.Call
+	for f := range c.reach([]*ssa.Function{parse}) {
+		for _, b := range f.Blocks {
+			for _, ins := range b.Instrs {
+				if call, ok := ins.(*ssa.Call); ok && isDataRead(&call.Call) {
+					if rd != nil {
+						return "", ""
+					}
+					rd = call
+				}
+			}
+		}
+	}
+	if rd == nil {
+		return "", ""
+	}
+	h := rd.Parent()
+	if len(h.Params) < 2 || h.Signature.Recv() == nil {
+		return "", ""
+	}
+	// Read(pos, pos+width) with pos a field of the receiver
+	posLoad, ok := rd.Call.Args[1].(*ssa.UnOp)
+	if !ok || posLoad.Op != token.MUL {
+		return "", ""
+	}
+	posFA, ok := posLoad.X.(*ssa.FieldAddr)
+	if !ok || posFA.X != ssa.Value(h.Params[0]) {
+		return "", ""
+	}
+	owner, posField := fieldAddrInfo(posFA)
+	if owner == nil || posField == nil {
+		return "", ""
+	}
+	isPosLoad := func(v ssa.Value) bool {
+		ld, ok := v.(*ssa.UnOp)
+		if !ok || ld.Op != token.MUL {
+			return false
+		}
+		fa, ok := ld.X.(*ssa.FieldAddr)
+		if !ok {
+			return false
+		}
+		_, fv := fieldAddrInfo(fa)
+		return fv == posField
+	}
+	end, ok := rd.Call.Args[2].(*ssa.BinOp)
+	if !ok || end.Op != token.ADD || !isPosLoad(end.X) {
+		return "", "the cursor's read does not end at its position plus a width"
+	}
+	width, ok := end.Y.(*ssa.Parameter)
+	if !ok {
+		return "", "the cursor's read does not span a width it is given"
+	}
+	// the only stores to the position: the step back by that width before the read, and data.Len() at creation
+	stepped := false
+	for _, st := range c.census().fieldStores[fieldKey{owner.Obj(), posField.Name()}] {
+		if st.fn == h {
+			sub, ok := st.val.(*ssa.BinOp)
+			if ok && sub.Op == token.SUB && isPosLoad(sub.X) && sub.Y == ssa.Value(width) && before(st.ins, rd) {
+				stepped = true
+				continue
+			}
+			return "", "the cursor's reading method moves its position other than back by the width it reads (" + c.pos(st.ins.Pos()) + ")"
+		}
+		if ov := evalOff(st.val, map[*ssa.Parameter]offVal{}, 0); ov.ok && ov.rel && ov.v == 0 {
+			continue
+		}
+		return "", "the footer cursor's position is set at " + c.pos(st.ins.Pos()) + " to something other than data.Len()"
+	}
+	if !stepped {
+		return "", "the cursor's reading method does not step back by the width before it reads"
+	}
+	// widths handed in agree with the decodes applied to what comes back
+	var widthsOf func(p *ssa.Parameter, depth int) (map[int64]bool, bool)
+	widthsOf = func(p *ssa.Parameter, depth int) (map[int64]bool, bool) {
+		out := map[int64]bool{}
+		if depth > 3 {
+			return nil, false
+		}
+		sites := c.callsTo(p.Parent())
+		if len(sites) == 0 {
+			return nil, false
+		}
+		for _, site := range sites {
+			a := argFor(site.Common(), p)
+			switch x := a.(type) {
+			case *ssa.Const:
+				k, ok := constInt(x)
+				if !ok {
+					return nil, false
+				}
+				out[k] = true
+			case *ssa.Parameter:
+				sub, ok := widthsOf(x, depth+1)
+				if !ok {
+					return nil, false
+				}
+				for k := range sub {
+					out[k] = true
+				}
+			case *ssa.UnOp:
+				// an entry of a table of widths: every store to that field is a constant
+				fa, ok := x.X.(*ssa.FieldAddr)
+				if !ok || x.Op != token.MUL {
+					return nil, false
+				}
+				o, fv := fieldAddrInfo(fa)
+				if fv == nil {
+					return nil, false
+				}
+				var tn *types.TypeName
+				if o != nil {
+					tn = o.Obj()
+				}
+				n := 0
+				for _, f := range c.srcFns {
+					for _, b := range f.Blocks {
+						for _, ins := range b.Instrs {
+							st, ok := ins.(*ssa.Store)
+							if !ok {
+								continue
+							}
+							fa2, ok := st.Addr.(*ssa.FieldAddr)
+							if !ok {
+								continue
+							}
+							if _, fv2 := fieldAddrInfo(fa2); fv2 != fv {
+								continue
+							}
+							k, ok := constInt(st.Val)
+							if !ok {
+								return nil, false
+							}
+							out[k] = true
+							n++
+						}
+					}
+				}
+				_ = tn
+				if n == 0 {
+					return nil, false
+				}
+			default:
+				return nil, false
+			}
+		}
+		return out, true
+	}
+	// each caller of the reading method decodes the bytes with one fixed width
+	checked := 0
+	for _, site := range c.callsTo(h) {
+		call, ok := site.(*ssa.Call)
+		if !ok {
+			return "", ""
+		}
+		bytesV := tupleParts(call)[0]
+		if bytesV == nil {
+			return "", "the bytes of a footer read at " + c.pos(call.Pos()) + " are not decoded"
+		}
+		dec := c.decodedWidth(bytesV, 0)
+		if dec <= 0 {
+			return "", "the bytes of the footer read at " + c.pos(call.Pos()) + " are not decoded as one fixed-width field"
+		}
+		var ws map[int64]bool
+		switch a := argFor(call.Common(), width).(type) {
+		case *ssa.Const:
+			k, _ := constInt(a)
+			ws = map[int64]bool{k: true}
+		case *ssa.Parameter:
+			var ok bool
+			ws, ok = widthsOf(a, 0)
+			if !ok {
+				return "", "cannot determine the widths handed to " + fnName(call.Parent())
+			}
+		default:
+			return "", "cannot determine the width of the footer read at " + c.pos(call.Pos())
+		}
+		for k := range ws {
+			if k != dec {
+				return "", fmt.Sprintf("%s steps back %d bytes but decodes %d: the following fields are read from the wrong place", fnName(call.Parent()), k, dec)
+			}
+		}
+		checked++
+	}
+	// total: the reader's wire signature
+	x := newWireExtractor(c, "r")
+	var total int64
+	for _, it := range flatten(x.signature("parseFooter")) {
+		switch it.Kind {
+		case "U16":
+			total += 2
+		case "U32":
+			total += 4
+		case "U64":
+			total += 8
+		default:
+			return "", "the footer reader decodes something other than fixed-width fields (" + it.Kind + ")"
+		}
+	}
+	fl, _ := constantInt64(c.ConstVal("footerLen"))
+	if total != fl {
+		return "", fmt.Sprintf("the footer reads cover %d bytes but footerLen is %d", total, fl)
+	}
+	return fmt.Sprintf("footer read through a cursor that starts at data.Len() and steps back by exactly the width each of its %d kinds of read decodes; total %d = footerLen", checked, total), ""
 }
